@@ -14,6 +14,7 @@ import (
 	"cmp"
 	"runtime"
 	"slices"
+	"unsafe"
 )
 
 // ReqKind is the reason a task hands control to the scheduler.
@@ -125,6 +126,7 @@ type Task struct {
 	parent     int
 	fn         func() // body for spawned (library-created) tasks
 	wakeAt     int64  // simulated ns at which a sleeping task becomes runnable
+	syncCell   uint64 // race-detector sync address, see handoff
 	body       func(t *Task)
 
 	// stats (scheduler-only)
@@ -180,6 +182,9 @@ func Yield(site uint32) {
 //
 //go:norace
 func handoff(t *Task, r request) reply {
+	// a release the scheduler can acquire when it parks this task across runs
+	// (it orders nothing between tasks: only the scheduler ever acquires it)
+	RaceReleaseMerge(unsafe.Pointer(&t.syncCell))
 	raceDisable()
 	toSched <- r
 	rep := <-t.resume
